@@ -78,8 +78,15 @@ class Abstractor:
         n = t.num_args()
         if n == 0:
             return t
-        ch = [self.ab(t.arg(j)) for j in range(n)]
+        kids = t.children()
+        ch = [self.ab(x) for x in kids]
         k = t.decl().kind()
+        if k not in (z3.Z3_OP_MUL, z3.Z3_OP_DIV, z3.Z3_OP_TO_INT):
+            for a, b in zip(ch, kids):
+                if a is not b and a.get_id() != b.get_id():
+                    break
+            else:
+                return t
         if k == z3.Z3_OP_MUL:
             nums = [c for c in ch if _is_num(c)]
             rest = [c for c in ch if not _is_num(c)]
